@@ -529,8 +529,13 @@ fn gen_pair(rng: &mut StdRng, cls: &str) -> ((i64, i64), (i64, i64)) {
             ((lon(rng), s * lat(rng, 80, 89)), (lon(rng), s * lat(rng, 80, 89)))
         }
         "coincident" => {
-            let a = (rng.gen_range(-179 * NANO..=179 * NANO), lat(rng, -88, 88));
-            (a, (a.0 + log_uniform(rng, 1e-6, 1e-3), a.1 + log_uniform(rng, 1e-6, 1e-3)))
+            // one pair in three sits right at the antimeridian, so that the nearby partner is on the other side of it
+            let a0 = if rng.gen_range(0..3) == 0 {
+                let s = if rng.gen_bool(0.5) { 1 } else { -1 };
+                s * (180 * NANO - log_uniform(rng, 1e-7, 1e-4).abs())
+            } else { rng.gen_range(-179 * NANO..=179 * NANO) };
+            let a = (a0, lat(rng, -88, 88));
+            (a, (wrap_n(a.0 + log_uniform(rng, 1e-6, 1e-3)), a.1 + log_uniform(rng, 1e-6, 1e-3)))
         }
         "antipodal" => {
             let a = (lon(rng), lat(rng, -88, 88));
